@@ -40,6 +40,8 @@ type Config struct {
 	MaxPoint  int     // UserPlan.MaxPointSize
 	NoExtras  bool    // no unindexed fields
 	NIDs      int     // size of the id universe (0 = MaxID)
+	VecRange  int     // vector components are drawn from -VecRange..VecRange (0 = 3)
+	VecLine   bool    // components after the first are drawn from 0..6 only
 	PVec      float64 // probability that a vector property is present on insert (0 = as the others)
 	// EmptyStrings: indexed string values are drawn uniformly, "" included
 	EmptyStrings bool
@@ -205,7 +207,16 @@ func (g *Gen) vec(dim int, metric string) ([]float32, []int) {
 				x = g.R.Intn(5) - 2
 			}
 		default:
-			x = g.R.Intn(7) - 3
+			if g.Cfg.VecLine && i > 0 {
+				// points along a line: long search paths in the graph
+				x = g.R.Intn(7)
+				break
+			}
+			vr := g.Cfg.VecRange
+			if vr == 0 {
+				vr = 3
+			}
+			x = g.R.Intn(2*vr+1) - vr
 		}
 		v[i] = float32(x)
 		a[i] = x
@@ -377,7 +388,7 @@ func (g *Gen) DocFrom(forUpdate bool, pInc float64, cur map[string]any) GenDoc {
 			if !forUpdate && props[0].IsVector() && g.Cfg.PVec > 0 {
 				pi = g.Cfg.PVec
 			}
-			if g.Cfg.BadTypes && g.R.Intn(40) == 0 {
+			if g.Cfg.BadTypes && !g.Cfg.Mem && g.R.Intn(40) == 0 {
 				// wrong type for the indexed field: the batch must be rejected
 				switch props[0].Type {
 				case models.IndexTypeString, models.IndexTypeText:
